@@ -474,6 +474,9 @@ def name_classes(p):
         ("bytes-truncated", b"fo\xe2\x82"), ("bytes-5byte", b"\xf8\x88\x80\x80\x80"), ("bytes-beyond-10ffff", b"\xf4\x90\x80\x80"),
     ]
     out += [(k, mk()) for k, mk in sorted(OTHER_NAMES.items())]
+    # operator names a peer may put into a HANDLE_CMP request beyond the six comparisons (used for cmp only)
+    out += [("cmpop-delitem", "__delitem__"), ("cmpop-setitem", "__setitem__"), ("cmpop-getattribute", "__getattribute__"),
+            ("cmpop-lt", "__lt__"), ("cmpop-init", "__init__")]
     return out
 
 
@@ -556,8 +559,9 @@ def run_real(conn, obj, req, name):
             other = object()
             res = conn._handle_cmp(obj, other, name)
             v = LAST.get("val")
-            if not (type(res) is tuple and len(res) == 2 and res[1] is v and v.got == ((obj, other), {})):
-                note = " !passthrough: cmp did not call type(obj).<op>(obj, other)"
+            if not (type(res) is tuple and len(res) == 2 and res[1] is v
+                    and v.got in (((obj, other), {}), ((other,), {}))):
+                note = " !passthrough: cmp did not call <op>(obj, other) / the hook's bound <op>(other)"
         else:
             raise ValueError(req)
         out = "invoked"
@@ -610,10 +614,38 @@ def flatten_model(line):
     return "".join(x + " " for x in flat) + "-> " + ("invoked" if out.startswith("ok ") else out)
 
 
+def canon(line):
+    """the compared form of an output line: `hasattr` probes as a SET (their order and repetition are not part of the
+    property: a rewrite that probes the name before the twin is harmless), everything else in order.  A read counts as
+    the ACCESS (kept in place) when a call follows it, when a hook call precedes it, or when it is the last event of
+    an `invoked` line; every other read is a probe."""
+    evs, sep, out = line.rpartition("-> ")
+    if not sep:
+        return line
+    toks = evs.split()
+    probes, rest = set(), []
+    for i, t in enumerate(toks):
+        if t.startswith("g") and t[1:2].isdigit():
+            nxt = toks[i + 1] if i + 1 < len(toks) else None
+            prv = toks[i - 1] if i > 0 else None
+            is_access = (nxt is not None and nxt.startswith("c:")) or (prv is not None and prv.startswith("hg")) \
+                or (nxt is None and out.startswith("invoked"))
+            if not is_access:
+                probes.add(t)
+                continue
+        rest.append(t)
+    return "P{%s} %s-> %s" % (" ".join(sorted(probes)), "".join(t + " " for t in rest), out)
+
+
 def observable(shape, line):
-    """kept for call sites: nothing is dropped any more — a restricted view's `__getattr__` reading the target while
-    `hasattr(view, ..)` is probed is modelled (`probeExtra`) and compared like everything else"""
-    return line
+    """a restricted view's `__getattr__` reading the target while `hasattr(view, ..)` is probed is modelled
+    (`probeExtra`) and compared like everything else.  Only for a view handed to `_handle_cmp`: reads of its CLASS
+    (`Restricted`, a plain `type`) cannot be logged, so events of object 3 are dropped from the model's line."""
+    if getattr(shape, "kind", None) != "cmp-view":
+        return line
+    evs, _, out = line.rpartition("-> ")
+    toks = [t for t in evs.split() if not (t[:1] in "gsdh" and t.split(":")[0].endswith("3"))]
+    return "".join(t + " " for t in toks) + "-> " + out
 
 
 # ------------------------------------------------------------------------------------------------ configurations
@@ -648,7 +680,7 @@ def bits_str(bits):
 class MetaCanary(type):
     """type(obj) is what `_handle_cmp` hands to `_access_attr`: class-level reads are logged"""
     def __getattribute__(cls, name):
-        LOG.append((0, "g", name))
+        LOG.append((3, "g", name))
         try:
             v = type.__getattribute__(cls, name)
         except BaseException as ex:  # noqa
@@ -660,35 +692,82 @@ class MetaCanary(type):
 class MetaHooked(MetaCanary):
     """a metaclass that defines the read hook: it decides for reads of its classes' attributes"""
     def _rpyc_getattr(cls, name):
-        LOG.append((0, "hg", name))
+        LOG.append((3, "hg", name))
         if name != type.__getattribute__(cls, "_permit"):
             raise AttributeError(name)
         return getattr(cls, name)
 
 
+class _CmpView(object):
+    """marker shape: a restricted view handed to `_handle_cmp`; reads of its CLASS (object 3) cannot be observed"""
+    kind = "cmp-view"
+    key = "restricted-view"
+
+
+CMP_VIEW = _CmpView()
+
+
 def build_cmp_object(kind, has, name, twin):
-    """-> (instance whose TYPE is the canary, model lines)"""
+    """-> (the object handed to `_handle_cmp`, model lines defining object 0 = the instance and object 3 = its type)"""
     names = []
     if "n" in has:
         names.append(name)
     if "t" in has and twin not in names:
         names.append(twin)
+    if kind == "view":
+        _p, _s, helpers = rpyc_mods()
+        target = fill(Plain(), 1, names)
+        view = instrument_view(helpers.restricted(target, [name]), 0)
+        vn = sorted(set(object.__dir__(view)))
+        del LOG[:]
+        tnames = sorted(set(x for x in dir(type(view)) if type(x) is str))
+        return view, ["policy obj 1 plain " + slist(dir_names(fill(Plain(), 1, names))),
+                      "policy obj 0 restricted 1 %s N %s" % (slist([name]), slist(vn)),
+                      "policy obj 3 plain " + slist(tnames)]
     ns = dict((n, Val(n)) for n in names)
     ns["_permit"] = name
+    bases = (CanaryBase,)
+    inst_hook = None
+    if kind in ("inst-hook-allow", "inst-hook-deny", "inst-hook-deny-valueerror"):
+        err = ValueError if kind.endswith("valueerror") else AttributeError
+        permitted = set([name]) if kind == "inst-hook-allow" else set()
+
+        def _rpyc_getattr(self, attr):
+            LOG.append((0, "hg", attr))
+            if attr not in permitted:
+                raise err(attr)
+            return getattr(self, attr)
+        ns["_rpyc_getattr"] = _rpyc_getattr
+        inst_hook = (err.__name__, sorted(permitted))
+    if kind == "service":
+        bases = (CanaryBase, rpyc_mods()[1].Service)
     meta = MetaHooked if kind == "meta-hooked" else MetaCanary
-    cls = meta("CmpCanary", (object,), ns)
+    cls = meta("CmpCanary", bases, ns)
     n0 = len(LOG)
     cnames = sorted(set(x for x in dir(cls) if type(x) is str))
     del LOG[n0:]
+    inst = fill(cls(), 0, [])
+    inames = dir_names(inst)
     if kind == "meta-hooked":
-        line = "policy obj 0 hooked %s L AttributeError %s - -" % (slist(cnames), slist([name]))
+        tline = "policy obj 3 hooked %s L AttributeError %s - -" % (slist(cnames), slist([name]))
     else:
-        line = "policy obj 0 plain " + slist(cnames)
-    return cls(), [line]
+        tline = "policy obj 3 plain " + slist(cnames)
+    if inst_hook is not None:
+        oline = "policy obj 0 hooked %s L %s %s - -" % (slist(inames), inst_hook[0], slist(inst_hook[1]))
+    elif kind == "service":
+        oline = "policy obj 0 service " + slist(inames)
+    else:
+        oline = "policy obj 0 plain " + slist(inames)
+    return inst, [oline, tline]
 
 
 CMP_SHAPES = [("type-has-name", "plain", "n"), ("type-has-twin", "plain", "t"), ("type-has-both", "plain", "nt"),
-              ("type-has-neither", "plain", ""), ("metaclass-hook", "meta-hooked", "nt")]
+              ("type-has-neither", "plain", ""), ("metaclass-hook", "meta-hooked", "nt"),
+              ("instance-hook-allows-name", "inst-hook-allow", "nt"), ("instance-hook-refuses", "inst-hook-deny", "nt"),
+              ("instance-hook-refuses-ValueError", "inst-hook-deny-valueerror", "n"),
+              ("instance-hook-allows-missing", "inst-hook-allow", ""),
+              ("restricted-view", "view", "nt"), ("service-instance", "service", "nt")]
+CMP_KIND = dict((k, (kd, hs)) for k, kd, hs in CMP_SHAPES)
 
 
 # ------------------------------------------------------------------------------------------------ the exhaustive table
@@ -707,7 +786,7 @@ def table_cases(prefixes, shapes=None, name_filter=None, safe=None):
                 text = decoded_or_fallback(name)
                 twin = p + text
                 tok = name_token(name)
-                for shape in (shapes or SHAPES):
+                for shape in ([] if ckey.startswith("cmpop-") else (shapes or SHAPES)):
                     setup = shape.describe(text, twin)
                     reqs = REQS + ["oldslicing"] + (["oldslicing-r"] if shape.key in OLD_R_SHAPES else []) \
                         + (["ctxexit"] if ckey == "dunder-exit" else [])
@@ -736,8 +815,9 @@ def table_cases(prefixes, shapes=None, name_filter=None, safe=None):
                                     shape=skey, req="cmp")
                         if safe is not None:
                             case["safe"] = list(safe)
-                        yield (case, cfg_lines, setup, "policy cmp %d 0 %s" % (i, tok),
-                               (lambda conn=conn, inst=inst, name=name: run_real(conn, inst, "cmp", name)), None)
+                        yield (case, cfg_lines, setup, "policy cmp %d 0 3 %s" % (i, tok),
+                               (lambda conn=conn, inst=inst, name=name: run_real(conn, inst, "cmp", name)),
+                               CMP_VIEW if kind == "view" else None)
                         cfg_lines = []
                         setup = []
         finally:
@@ -858,7 +938,7 @@ def gen_env_overlay(r):
 
 N_DICTS = 2
 N_SERVERS = 3
-CLASSIC_KINDS = ("slave", "classic-pair")       # connection kinds whose local service grants itself classic mode
+CLASSIC_KINDS = ("slave", "slave-noarg", "classic-pair")       # connection kinds whose local service grants itself classic mode
 
 
 def gen_history(r):
@@ -906,7 +986,7 @@ def gen_history(r):
             # in place afterwards (`server.protocol_config[...] = ...`, the idiom of the library's own tests)
             if len(servers) < N_SERVERS and (not servers or r.chance(1, 2)):
                 sk = len(servers)
-                servers[sk] = r.choice(["void", "void", "slave"])
+                servers[sk] = r.choice(["void", "void", "slave", "void-pool"])
                 evs.append(["newserver", sk, None if r.chance(3, 4) else r.below(N_DICTS), servers[sk]])
             else:
                 evs.append(["editserver", r.choice(sorted(servers)), gen_env_overlay(r)])
@@ -920,7 +1000,10 @@ def gen_history(r):
             evs.append(["setdefault", gen_env_overlay(r)])
         elif state[i] == "fresh":
             kind = r.choice(["direct", "void", "slave", "slave", "custom", "classic-pair", "master-pair", "server"])
-            if r.chance(3, 5):
+            if r.chance(1, 8):
+                # no config argument at all (the constructors' own `config={}` default object)
+                evs.append(["open", i, {}, r.choice(["void-noarg", "void-noarg", "slave-noarg"])])
+            elif r.chance(3, 5):
                 evs.append(["openwith", i, 0 if r.chance(2, 3) else r.below(N_DICTS), kind])
             else:
                 evs.append(["open", i, gen_overlay(r), kind])
@@ -992,6 +1075,7 @@ class HistoryRun(object):
         self.dicts = [dict() for _ in range(N_DICTS)]       # the application's settings-dict OBJECTS
         self.servers, self.captured, self.socks, self.keep = {}, [], [], []
         self.srv = {}            # k -> real server object made by a `newserver` event
+        self.pools = []
         protocol, service, _h = rpyc_mods()
         self.protocol, self.service = protocol, service
 
@@ -1011,6 +1095,10 @@ class HistoryRun(object):
             return service.VoidService._connect(DummyChannel(), cfg)
         if kind == "custom":
             return self.custom()._connect(DummyChannel(), cfg)
+        if kind == "void-noarg":
+            return service.VoidService._connect(DummyChannel())            # no config at all: the `config={}` default
+        if kind == "slave-noarg":
+            return service.SlaveService._connect(DummyChannel())
         if kind == "slave":
             return service.SlaveService._connect(DummyChannel(), cfg)      # classic mode
         if kind in ("classic-pair", "master-pair"):
@@ -1052,10 +1140,15 @@ class HistoryRun(object):
             return self.captured.pop()
         raise ValueError(kind)
 
-    def make_server(self, svc, **kw):
-        """a real ThreadedServer that hands every connection it makes to the harness instead of serving it"""
-        from rpyc.utils.server import ThreadedServer
+    def make_server(self, svc, pool=False, **kw):
+        """a real ThreadedServer that hands every connection it makes to the harness instead of serving it
+        (`pool`: a ThreadPoolServer, whose `_authenticate_and_build_connection` is a separate per-client path)"""
+        from rpyc.utils.server import ThreadedServer, ThreadPoolServer
         got = self.captured
+        if pool:
+            srv = ThreadPoolServer(svc, hostname="127.0.0.1", port=0, auto_register=False, nbThreads=1, **kw)
+            self.pools.append(srv)
+            return srv
 
         class CapturingServer(ThreadedServer):
             def _handle_connection(self, conn):
@@ -1086,13 +1179,17 @@ class HistoryRun(object):
             _n, k, d, skind = ev
             svc = service.SlaveService if skind == "slave" else service.VoidService
             kw = {} if d is None else dict(protocol_config=self.dicts[d])
-            self.srv[k] = self.make_server(svc, **kw)
+            self.srv[k] = self.make_server(svc, pool=(skind == "void-pool"), **kw)
         elif ev[0] == "srvconn":
             import socket
             a, b = socket.socketpair()
             self.socks += [a, b]
-            self.srv[ev[2]]._serve_client(a, None)
-            self.conns[ev[1]] = self.captured.pop()
+            if ev[3] == "void-pool":
+                _sock, conn = self.srv[ev[2]]._authenticate_and_build_connection(a)
+                self.conns[ev[1]] = conn
+            else:
+                self.srv[ev[2]]._serve_client(a, None)
+                self.conns[ev[1]] = self.captured.pop()
         elif ev[0] == "editserver":
             cfg = to_real_dict(ev[2])
             items = sorted(cfg.items(), key=lambda kv: kv[0])
@@ -1149,6 +1246,11 @@ class HistoryRun(object):
         for c in self.conns:
             if c is not None and not c.closed:
                 close_conn(c)
+        for srv in self.pools:
+            try:
+                srv.close()
+            except Exception:  # noqa
+                pass
         for srv in list(self.servers.values()) + list(self.srv.values()):
             try:
                 srv.listener.close()
@@ -1229,6 +1331,8 @@ def compare_history(hist, outs, want, labels, lines):
                 got = observable(SHAPE_BY_KEY["restricted-attrs-name"], renumber(got, 12, 0))
             else:
                 got = renumber(got, int(objid), 0)
+        if l.startswith("policy wacc"):
+            got, w = canon(got), canon(w)
         if got != w:
             bad.append(dict(case=hist, at=lab, impl=w[:400], model=got[:400]))
     return bad
@@ -1315,8 +1419,9 @@ def correspondence(ctx):
             got = flat_memo.get(o)
             if got is None:
                 got = flat_memo[o] = flatten_model(o)
-            if shape is not None and shape.kind == "restricted":
-                got, impl = observable(shape, got), observable(shape, impl)
+            if shape is not None and shape.kind == "cmp-view":
+                got = observable(shape, got)
+            got, impl = canon(got), canon(impl)
             nc = case["name_class"]
             key = (nc, impl, o)
             info = cls_memo.get(key)
@@ -1330,7 +1435,7 @@ def correspondence(ctx):
                     "model:" + (" ".join(tail.split(" ")[:2]) if tail.startswith("ok") else tail),
                     "probes:%d" % sum(1 for t in o.split(" ") if t.startswith("p")),
                     abstract(impl, text, twin),
-                    impl == "-> err AttributeError" and type(nm) is str)
+                    impl == "P{} -> err AttributeError" and type(nm) is str)
             for k in (info[0], info[1], info[2], "req:" + case["req"]):
                 dist[k] = dist.get(k, 0) + 1
             if not info[4]:
@@ -1489,14 +1594,19 @@ def oracle_case(case):
         text = decoded_or_fallback(name)
         twin = p + text
         if req == "cmp":
-            kind, has = dict((k, (kd, hs)) for k, kd, hs in CMP_SHAPES)[case["shape"]]
+            kind, has = CMP_KIND[case["shape"]]
             obj, _setup = build_cmp_object(kind, has, text, twin)
             subject = type(obj)
-            hooks = {"g": set([text])} if kind == "meta-hooked" else {}
-            hook_err = "AttributeError"
+            hooks, hook_err = {}, "AttributeError"
+            # an object whose class defines the read hook decides; so does a metaclass hook for reads of the class
+            if kind in ("meta-hooked", "inst-hook-allow", "view"):
+                hooks = {"g": set([text])}
+            elif kind.startswith("inst-hook-deny"):
+                hooks = {"g": set()}
+                hook_err = "ValueError" if kind.endswith("valueerror") else "AttributeError"
             has_n = _cls_has(subject, text)
             has_t = _cls_has(subject, twin)
-            view = False
+            view = kind == "view"
         else:
             shape = SHAPE_BY_KEY[case["shape"]]
             obj = build_for(shape, req, text, twin)
@@ -1568,6 +1678,9 @@ def oracle_case(case):
             return "the configuration does not allow this request, it must fail with AttributeError; observed: " + line
         if effects:
             return "a denied request had an effect: " + line
+        stray = [(h, n) for h, n in entries if n not in (text, twin)]
+        if stray:
+            return "a denied request read attributes other than the name and its twin (%r): %s" % (stray, line)
         return None
     if not out.startswith("invoked"):
         return "the configuration allows this request (acceptable targets %s) but it failed: %s" % (
@@ -1673,7 +1786,7 @@ def oracle_history(hist):
                 # was passed (plus classic overrides iff it is the classic one): same decisions as a connection of the
                 # same kind opened with a PRIVATE copy of those settings
                 said = copy.deepcopy(ev[2] if ev[0] == "open" else shadow[ev[2]])
-                ref = run.open_conn(ev[3], to_real_dict(said))
+                ref = run.open_conn({"void-noarg": "void", "slave-noarg": "slave"}.get(ev[3], ev[3]), to_real_dict(said))
                 try:
                     want = run.decisions_of(ref)
                 finally:
@@ -1863,7 +1976,7 @@ def replay(case):
             if case["req"] == "cmp":
                 name = dict(name_classes(p))[case["name_class"]]
                 text = decoded_or_fallback(name)
-                kind, has = dict((k, (kd, hs)) for k, kd, hs in CMP_SHAPES)[case["shape"]]
+                kind, has = CMP_KIND[case["shape"]]
                 _inst, setup2 = build_cmp_object(kind, has, text, p + text)
             else:
                 name = dict(name_classes(p))[case["name_class"]]
